@@ -93,7 +93,13 @@ func genRuns(r *prng, W int) []te.VerifRun {
 			if w == 0 {
 				continue
 			}
-			out = append(out, te.VerifRun{Style: st, Text: sb.String(), Width: w})
+			run := te.VerifRun{Style: st, Text: sb.String(), Width: w}
+			if r.chance(1, 4) {
+				// a text run that used to be a blank run (mergeIntoPreviousCell turns a repeated
+				// rune into text and leaves the rune in place)
+				run.Rune = ' '
+			}
+			out = append(out, run)
 			left -= w
 		}
 	}
